@@ -6,6 +6,7 @@
 //   {"op":"save"}                                 save_to_file
 //   {"op":"load","lines":[...text lines...]}      load a savefile (header + given lines) into a FRESH instance, report its state
 //   {"op":"loadraw","text":"..."}                 load arbitrary text into a fresh instance (header / garbage rejection)
+//   {"op":"floatseq","addr":"/pg","ins":[bits...]} float bit patterns sent one after the other to a float port (positive finite values, the last one 1.0)
 //   {"op":"serialize"}                            subtree_serialize into a large buffer (image logged) and into buffers of every capacity around 0..20 and
 //                                                 around the needed size (flush against a poisoned zone); subtree_deserialize of the image into a FRESH instance
 // After every operation: the reply / broadcast / undo events it produced (decoded) and the complete state.
@@ -29,10 +30,10 @@ using app1::App;
 static long q4(float f) { return lround((double)f * 4.0); }           // floats are multiples of 1/4 in every script
 static bool exact4(float f) { return (double)q4(f) / 4.0 == (double)f; }
 
-struct Val { char t; long n; std::string b; };
+struct Val { char t; long n; std::string b; uint32_t bits = 0; };
 struct Ev { std::string kind, addr, tags; std::vector<Val> args; };
 static Val val_of(char t, const rtosc_arg_t &a) { Val v{t, 0, ""};
-    switch (t) { case 'i': case 'c': v.n = a.i; break; case 'f': v.n = q4(a.f); if (!exact4(a.f)) v.t = '?'; break; case 's': case 'S': v.b = a.s ? a.s : ""; break; default: break; } return v; }
+    switch (t) { case 'i': case 'c': v.n = a.i; break; case 'f': v.n = q4(a.f); memcpy(&v.bits, &a.f, 4); if (!exact4(a.f)) v.t = '?'; break; case 's': case 'S': v.b = a.s ? a.s : ""; break; default: break; } return v; }
 static void val_json(JW &w, const Val &v) { w.obj().kstr("t", std::string(1, v.t)).knum("n", v.n).kbytes("b", (const uint8_t *)v.b.data(), v.b.size()).end_obj(); }
 struct Rec : RtData {
     std::vector<Ev> evs; char locbuf[1024];
@@ -148,6 +149,17 @@ static void run_script(const J &script, FILE *out) {
                 App fresh; Rec d(&fresh);
                 if (ret) subtree_deserialize((char *)big.p, BIG, &fresh, const_cast<Ports *>(&App::ports), d);
                 w.key("loaded"); state(w, fresh); }
+            else if (k == "floatseq") { // a sequence of float bit patterns sent to one float port; per step: stored pattern, undo events (old, new), broadcasts - all as bit patterns
+                std::string addr = op["addr"].s; w.kstr("addr", addr).key("ins").arr(); for (auto &b : op["ins"].a) w.num((long)b.num()); w.end_arr();
+                float *field = addr == "/pg" ? &app.pg : addr == "/pf" ? &app.pf : addr == "/af1" ? &app.af[1] : addr == "/sub/sf" ? &app.sub.sf : nullptr;
+                w.key("steps").arr();
+                for (auto &b : op["ins"].a) { uint32_t u = (uint32_t)b.num(); float f; memcpy(&f, &u, 4); char m[64]; size_t n = rtosc_message(m, sizeof m, addr.c_str(), "f", f);
+                    Rec d(&app); FlushBuf mb(n); memcpy(mb.p, m, n); App::ports.dispatch((const char *)mb.p, d, true);
+                    uint32_t st = 0; if (field) memcpy(&st, field, 4);
+                    w.obj().knum("stored", (long)st).knum("matches", d.matches).key("undo").arr();
+                    for (auto &e : d.evs) if (e.kind == "undo" && e.args.size() == 3 && e.args[0].b == addr) w.obj().knum("old", (long)e.args[1].bits).knum("new", (long)e.args[2].bits).end_obj(); else if (e.kind == "undo") w.obj().knum("old", -1).knum("new", -1).end_obj();
+                    w.end_arr().key("bc").arr(); for (auto &e : d.evs) if (e.kind == "broadcast") w.num(e.addr == addr && e.args.size() == 1 ? (long)e.args[0].bits : -1L); w.end_arr().end_obj(); }
+                w.end_arr(); }
             else if (k == "load" || k == "loadraw") { std::string text;
                 if (k == "load") { text = header(); for (auto &l : op["lines"].a) text += l.s + "\n"; w.key("lines").arr(); for (auto &l : op["lines"].a) w.str(l.s); w.end_arr(); }
                 else { text = op["text"].s; w.kstr("text", text); }
